@@ -179,7 +179,7 @@ def run(ctx):
         return None
     e_, d_ = cbc(ce), cbc(cd)
     pair = e_ and d_ and e_[0] == "encrypt" and d_[0] == "decrypt" and e_[2] == d_[2] and "CBC" in (e_[2] or "") \
-        and e_[3] == d_[3] == ("call", ("ext", "bytes"), (("const", 16),), ()) and e_[1] == ("param", "key") == d_[1]
+        and e_[3] == d_[3] and e_[3] in (("call", ("ext", "bytes"), (("const", 16),), ()), ("const", bytes(16))) and e_[1] == ("param", "key") == d_[1]
     ctx.ob("C05.c", SEC, bool(pair), "encrypt_aes_cbc / decrypt_aes_cbc: same mode (CBC), zero IV, caller's key", func=SEC, file=file,
            construct="AES.new(key, MODE_CBC, iv=bytes(16))", fail="CBC encrypt / decrypt disagree on mode, IV or key")
 
